@@ -10,7 +10,7 @@ ALL = [f"C{n:02d}" for n in range(1, 21)]
 CHECKS = {
     "C07": ("exploration",
             "exhaustive enumeration of (nsteps, period, numrec, layout, pvar, direction, file name) against predicted record schedule; split == unsplit differential",
-            "Every tuple in the stated box is run end to end through ladim.main and compared with the predicted file names, per-file record counts and record times, and the split run with the unsplit run. Complete inside the box (quick: nsteps<=9, period<=3, numrec<=3; thorough: 14/5/4) x four file-name prototypes (out.nc, out_07.nc, out_0000.nc, out_2000_00.nc), nothing outside it.",
+            "Every tuple in the stated box is run end to end through ladim.main and compared with the predicted file names, per-file record counts and record times, and the split run with the unsplit run. Complete inside the box (quick: nsteps<=9, period<=3, numrec<=3; thorough: 14/5/4) x four file-name prototypes (out.nc, out_07.nc, out_0000.nc, out_2000_00.nc), plus the same box with the stop time between two steps for out.nc; nothing outside it.",
             "Constant velocity, two particles, dt=60 s; netCDF4 is trusted to read back what was written.",
             "DESIGN.md section 3 C07"),
     "C01": ("exploration",
@@ -20,7 +20,7 @@ CHECKS = {
             "DESIGN.md section 3 C01"),
     "C02": ("exploration",
             "Hypothesis-generated synthetic ROMS files and positions; differential against an independent C-grid interpolator + convexity, linear-exactness and subgrid-vs-full-grid metamorphic relations",
-            "Synthetic grid/forcing files (sizes, N incl. 1, both transforms, random stretching, bathymetries, masks with garbage on land faces, f8/f4/packed storage, legal subgrids incl. negative spellings) are read by the real Grid and Forcing; velocity and scalar forcing at 24-48 positions (uniform, edges, corners, +-1 ulp, rim; depths on levels, above the surface, below the bottom) are compared with the reference, with the node range, with the closed form for linear fields, and between subgrid and full grid; the sampled frame is the first or (after five clock/forcing updates) the second, which may live in a file of its own with its own storage and packing parameters; in two fifths of the cases some particles die after the forcing was evaluated and are removed from the state (what a sparse output record does) before the velocity of the survivors is requested; in a third of the cases the vertical set-up comes from an explicit Vinfo that differs from what the file records (other transform and critical depth, stretching from parameters), and in half of the second-frame cases the particles change depth just before the last forcing update.",
+            "Synthetic grid/forcing files (sizes, N incl. 1, both transforms, random stretching, bathymetries, masks with garbage on land faces, f8/f4/packed storage, legal subgrids incl. negative spellings) are read by the real Grid and Forcing; velocity and scalar forcing at 24-48 positions (uniform, edges, corners, +-1 ulp, rim; depths on levels, above the surface, below the bottom) are compared with the reference, with the node range, with the closed form for linear fields, and between subgrid and full grid; the sampled frame is the first or (after five clock/forcing updates) the second, which may live in a file of its own with its own storage and packing parameters; in two fifths of the cases some particles die after the forcing was evaluated and are removed from the state (what a sparse output record does) before the velocity of the survivors is requested; in a third of the cases the vertical set-up comes from an explicit Vinfo that differs from what the file records (other transform and critical depth, stretching from parameters), in half of the second-frame cases the particles change depth just before the last forcing update, and in half of the masked cases only the second frame has non-zero values on land faces.",
             "At exactly half-way positions either neighbouring cell is accepted as the particle's own cell; tolerance 1e-12 (f8) / 8*2^-23 (f4, packed).",
             "DESIGN.md section 3 C02"),
     "C03": ("exploration",
@@ -30,7 +30,7 @@ CHECKS = {
             "DESIGN.md section 3 C03"),
     "C04": ("exploration",
             "Hypothesis-generated release tables and windows; differential of the State after every release step against a reference release schedule",
-            "Tables (several times x rows, mult 0..5 or absent, rows before/in/at/after the window, extra int/float/time columns as instance or particle variables, header or names, column permutations, timestamp spellings, X/Y or lon/lat, discrete or continuous, forward or reversed) are read by the real ParticleReleaser; after each timer.update(); release.update() the newly appended particles must be exactly the scheduled rows repeated mult times, in file-row order, with their positions, extras and release time; in half of the cases some particles die between releases and stay in the state; a third of the X/Y tables also carry lon/lat columns that point elsewhere (X, Y wins, as documented). Part 'warm' runs ladim.main warm-started from a drawn file boundary of a split run with a recording release plug-in: nothing is released at the restart time, every later row / tick enters at its own step and position with the next pids.",
+            "Tables (several times x rows, mult 0..5 or absent, rows before/in/at/after the window, extra int/float/time columns as instance or particle variables, header or names, column permutations, timestamp spellings, X/Y or lon/lat, discrete or continuous, forward or reversed) are read by the real ParticleReleaser; after each timer.update(); release.update() the newly appended particles must be exactly the scheduled rows repeated mult times, in file-row order, with their positions, extras and release time; in half of the cases some particles die between releases and stay in the state; a third of the X/Y tables also carry lon/lat columns that point elsewhere (X, Y wins, as documented); the release frequency is written in any accepted period spelling. Part 'warm' runs ladim.main warm-started from a drawn file boundary of a split run with a recording release plug-in: nothing is released at the restart time, every later row / tick enters at its own step and position with the next pids.",
             "Times on the model grid, table sorted in simulation order, continuous file times on the tick grid (the property's quantifier); text->float parsing tolerance 1e-13.",
             "DESIGN.md section 3 C04"),
     "C05": ("exploration",
@@ -40,7 +40,7 @@ CHECKS = {
             "DESIGN.md section 3 C05"),
     "C06": ("exploration",
             "Hypothesis-generated end-to-end histories; round-trip oracle: state snapshot taken by a recording output plug-in at write time vs file read back by the documented recipe",
-            "Generated simulations (multi-file forcing, release tables incl. continuous, scripted kills, lifetimes, out-of-grid flow, time-typed and other particle variables, sparse/dense, numrec, reference times, f4/f8) are run through ladim.main; every record of every file is compared with the snapshot taken when it was written, the count/time/particle-variable structure is checked, dense files must be filled exactly where a pid is not alive. Part 'warm' applies the same comparison to a run warm-started from a drawn file boundary of a split run; a state variable may be stored packed (integer with scale_factor/add_offset, lossless) and positions packed with a scale factor (compared to half a unit of the packing); in the warm part the model time of a record must be the restart time plus its step count.",
+            "Generated simulations (multi-file forcing, release tables incl. continuous, scripted kills, lifetimes, out-of-grid flow, time-typed and other particle variables, sparse/dense, numrec, reference times, f4/f8) are run through ladim.main; every record of every file is compared with the snapshot taken when it was written, the count/time/particle-variable structure is checked, dense files must be filled exactly where a pid is not alive. Part 'warm' applies the same comparison to a run warm-started from a drawn file boundary of a split run; a state variable may be stored packed (integer with scale_factor/add_offset, lossless) and positions packed with a scale factor (compared to half a unit of the packing); in the warm part the model time of a record must be the restart time plus its step count; the stop time may lie between two steps.",
             "The snapshot is taken in a subclass of the stock Output immediately before delegating to it; netCDF4 is trusted for reading.",
             "DESIGN.md section 3 C06"),
     "C16": ("exploration",
@@ -65,17 +65,17 @@ CHECKS = {
             "DESIGN.md section 3 C10"),
     "C11": ("exploration",
             "Hypothesis-generated parameters and generator seeds; statistical oracle with explicit 6.5-sigma acceptance bands + exact metamorphic scaling relations under a shared seed",
-            "Clouds of 1e4..1e5 (thorough 1e6) particles in still water on an open plug-in grid: mean, variance (= 2*D*t per unit), X-Y, X-Z, step-to-step and neighbour correlations per case; quadrupling D doubles and doubling dx halves every displacement under the same seed; D = Dz = 0 is bitwise deterministic; vertical advection may be on together with vertical diffusion (a constant w shifts the cloud and leaves its spread alone). A third of the clouds start from a restart file with single-precision positions read by ladim.warm_start.",
+            "Clouds of 1e4..1e5 (thorough 1e6) particles in still water on an open plug-in grid: mean, variance (= 2*D*t per unit), X-Y, X-Z, step-to-step and neighbour correlations per case; quadrupling D doubles and doubling dx halves every displacement under the same seed; D = Dz = 0 is bitwise deterministic; vertical advection may be on together with vertical diffusion (a constant w shifts the cloud and leaves its spread alone). Part 'swap': two clouds in regions of different grid spacing, some particles removed and as many released between two steps; every displacement scaled by the particle's own spacing and age is standard normal. A third of the clouds start from a restart file with single-precision positions read by ladim.warm_start.",
             "False-alarm probability ~8e-11 per statistical test; Tracker.rng is replaced by a seeded generator after construction.",
             "DESIGN.md section 3 C11"),
     "C14": ("exploration",
             "Hypothesis-generated base scenario + one generated variant (drop/add/permute rows, kill others, whole-step time shift, repeat); metamorphic relation: per-particle trajectories bit-identical up to renumbering",
-            "Base scenarios have depth- and position-dependent currents over variable bathymetry, land, scripted deaths by tag followed by output steps, lifetimes, late releases, scalar forcing, an ageing IBM, both layouts and split files; the generator has fixed shares of directed flavours: coastal (release next to land, onshore flow faster than a cell per step, particles switched off or killed early that linger in the state), stage_cross (deaths seen by a sparse record while Runge-Kutta stages leave the start cell), units_shift (forcing time axis in days/hours since another epoch, whole-step shifts), border (a switched-off particle and another one leaving the grid), empty_gap (the model running empty until a later release); every release row carries a unique tag so that trajectories are matched after renumbering; all variables of every record must be bit-identical (f8).",
+            "Base scenarios have depth- and position-dependent currents over variable bathymetry, land, scripted deaths by tag followed by output steps, lifetimes, late releases, scalar forcing, an ageing IBM, both layouts and split files; the generator has fixed shares of directed flavours: coastal (release next to land, onshore flow faster than a cell per step, particles switched off or killed early that linger in the state), stage_cross (deaths seen by a sparse record while Runge-Kutta stages leave the start cell), units_shift (forcing time axis in days/hours since another epoch, whole-step shifts), border (a switched-off particle and another one leaving the grid), empty_gap (the model running empty until a later release), dense_release (dense layout, a death, then a release; a tag must stay in one column of the particle axis); every release row carries a unique tag so that trajectories are matched after renumbering; all variables of every record must be bit-identical (f8).",
             "mult = 1 for every row (unique tags); diffusion off.",
             "DESIGN.md section 3 C14"),
     "C15": ("exploration",
             "Hypothesis-generated bathymetries, depths and vertical forcing against the validity predicate 0 <= Z' <= h(start cell); exact reflected value for advection-only cases",
-            "The real Tracker on a plug-in grid with generated bathymetry (ratios up to 5000), start depths incl. exactly 0 and h, vertical diffusion and/or advection within the property's premise, all horizontal schemes with flow into other cells, 1-4 steps; part 'stock' repeats it on the stock ROMS Grid built from a generated file (random / eta-sloping / xi-sloping bathymetry, subgrids with i0 != j0) with the reference depth read from the generated bathymetry; between steps some particles may die and be removed while as many new ones are released.",
+            "The real Tracker on a plug-in grid with generated bathymetry (ratios up to 5000), start depths incl. exactly 0 and h, vertical diffusion and/or advection within the property's premise, all horizontal schemes with flow into other cells, 1-4 steps; part 'stock' repeats it on the stock ROMS Grid built from a generated file (random / eta-sloping / xi-sloping bathymetry, subgrids with i0 != j0) with the reference depth read from the generated bathymetry; between steps some particles may die and be removed while as many new ones are released; the file's critical depth hc takes any value.",
             "Premise enforced with a 6.5-sigma margin on the random part; only particles starting inside [0, h] are judged; a particle exactly on a cell edge may be given either neighbouring cell.",
             "DESIGN.md section 3 C15"),
     "C17": ("exploration",
@@ -85,17 +85,17 @@ CHECKS = {
             "DESIGN.md section 3 C17"),
     "C18": ("exploration",
             "Hypothesis-generated abstract simulations rendered in several spellings; differential between the output files of the YAML-v2, TOML-v2, YAML-v1 and defaulted-section runs",
-            "Abstract simulations inside the v1 vocabulary (forcing file or wildcard, optional grid file, subgrid, extra forcing, discrete/continuous release, extra release columns as particle variables, IBM module with parameters and variables, scheme, period spellings, reference time) are rendered as YAML v2, TOML v2 (native or string date-times), YAML v1 and a second v2 file with optional sections omitted vs present-but-empty and the grid section omitted / present without a module key (also completely empty) / with the module spelled out; discrete releases may still carry a release frequency (legacy: release_type discrete or absent); in a third of the cases Grid and Forcing come from a user file given by path whose metric differs from the stock grid's; all four runs must complete and their output files agree in dimensions, variables, attributes and every value.",
+            "Abstract simulations inside the v1 vocabulary (forcing file or wildcard, optional grid file, subgrid, extra forcing, discrete/continuous release, extra release columns as particle variables, IBM module with parameters and variables, scheme, period spellings, reference time) are rendered as YAML v2, TOML v2 (native or string date-times), YAML v1 and a second v2 file with optional sections omitted vs present-but-empty and the grid section omitted / present without a module key (also completely empty) / with the module spelled out; legacy files name forcing and grid file in the gridforce or the files section; discrete releases may still carry a release frequency (legacy: release_type discrete or absent); in a third of the cases Grid and Forcing come from a user file given by path whose metric differs from the stock grid's; all four runs must complete and their output files agree in dimensions, variables, attributes and every value.",
             "forcing.module is always spelled; empty sections are written as {}.",
             "DESIGN.md section 3 C18"),
     "C19": ("exploration",
             "Hypothesis-generated run lengths, periods, plug-in spellings and cold/warm starts; call-log grammar + state snapshots from recording plug-ins in every module slot",
-            "A recording module (thin subclasses of the stock Grid, Forcing, ParticleReleaser, Tracker, Output and a scripted IBM) is installed in any subset of the six slots under a generated spelling (absolute path with/without .py, relative path, bare name in the working directory with a same-named decoy on sys.path, module name on sys.path); the update calls must follow release, forcing, output, tracker, ibm once per step (plus the output-less catch-up step of a warm start), snapshots taken inside the calls must be consistent with that order, kills take effect from the next record, close is called once per module, the decoy never runs, and - plug-in files of different slots may share one file name in different directories - every logged call comes from the file configured for its slot; the first release may come some steps after the start (the model steps with an empty state) and the scalar forcing value in every record must be the one of the frame in force at the record's time. Part 'legacy': a version-1 file naming a recording IBM by path, with or without a variables list.",
+            "A recording module (thin subclasses of the stock Grid, Forcing, ParticleReleaser, Tracker, Output and a scripted IBM) is installed in any subset of the six slots under a generated spelling (absolute path with/without .py, relative path, bare name in the working directory with a same-named decoy on sys.path, module name on sys.path); the update calls must follow release, forcing, output, tracker, ibm once per step (plus the output-less catch-up step of a warm start), snapshots taken inside the calls must be consistent with that order, kills take effect from the next record, close is called once per module, the decoy never runs, and - plug-in files of different slots may share one file name in different directories - every logged call comes from the file configured for its slot; the first release may come some steps after the start (the model steps with an empty state) and the scalar forcing value in every record must be the one of the frame in force at the record's time. Inside every call the model clock a plug-in can read must be the time of that step (also in the warm start's catch-up step). Part 'legacy': a version-1 file naming a recording IBM by path, with or without a variables list.",
             "Recording classes log and delegate to the stock implementation.",
             "DESIGN.md section 3 C19"),
     "C20": ("fault_enumeration",
             "enumeration of every fault kind x every base scenario (x drawn fault parameters); oracle: the run raises before Model.update is entered and leaves no output record",
-            "37 fault kinds (forcing not covering the window at either end, frames unsorted or duplicated within/across files, start/stop/dt absent/empty/null/zero, stop on the wrong side, releases all before/after/only at the stop time, no position columns, missing config/grid/forcing/release files, missing mandatory sections, six kinds of illegal subgrid) are injected one at a time into 16 base scenarios (forward/reversed x single/multi-file x discrete/continuous x grid section given/omitted); the unfaulted bases must run clean. Part 'warm': the faults in time (stop before the restart time, forcing ending before the stop, forcing starting after the restart time) injected into 8 warm-started bases (restart from a cold run's file or from the file of a run that was itself warm-started, start key kept or dropped, reference time configured or not).",
+            "37 fault kinds (forcing not covering the window at either end, frames unsorted or duplicated within/across files, start/stop/dt absent/empty/null/zero, stop on the wrong side, releases all before/after/only at the stop time, no position columns, missing config/grid/forcing/release files, missing mandatory sections, six kinds of illegal subgrid) are injected one at a time into 16 base scenarios (forward/reversed x single/multi-file x discrete/continuous x grid section given/omitted); the unfaulted bases must run clean. Part 'warm': the faults in time (stop before the restart time, forcing ending before the stop, forcing starting after the restart time) injected into 8 warm-started bases (restart from a cold run's file or from the file of a run that was itself warm-started, start key kept or dropped, reference time configured or not). Half of the faulted cold-start cases replace, on the same paths, a valid set-up that was run first in the same process.",
             "'stops with an error' = SystemExit or any exception; 'before the simulation starts' = Model.update never entered.",
             "DESIGN.md section 3 C20"),
     "C12": ("exploration",
